@@ -552,6 +552,8 @@ class HistogramND(HistogramBase):
         )
         if "missed" not in kwargs:
             kwargs["missed"] = missing
+        if dtype is not None:
+            kwargs["dtype"] = dtype
         return cls(
             binnings=binnings,
             frequencies=frequencies,
